@@ -103,7 +103,16 @@ func (p *Prog) lockAnalysis(fn *ssa.Function, may bool) *Locks {
 	entry := map[LockID]bool{}
 	if p.Transparent(fn) && lockDepth < 4 {
 		lockDepth++
-		sites := p.StaticCallSites(fn)
+		var sites []*ssa.Call
+		for _, cs := range p.StaticCallSites(fn) {
+			// a literal handed to a helper that calls it (`withLock(func() {...})`)
+			// starts with what the helper holds where it calls its parameter
+			if inner := p.paramCallSites(cs, fn); len(inner) > 0 {
+				sites = append(sites, inner...)
+			} else {
+				sites = append(sites, cs)
+			}
+		}
 		for i, cs := range sites {
 			held := p.lockAnalysis(cs.Parent(), may).Held(cs)
 			if i == 0 || may {
@@ -244,6 +253,9 @@ func (l *Locks) HeldAtExit() map[LockID][]ssa.Instruction {
 			return
 		}
 		for id := range l.Held(in) {
+			if l.entry[id] {
+				continue // held by whoever entered this helper or literal: theirs to release
+			}
 			if !deferred[id] {
 				out[id] = append(out[id], in)
 			}
@@ -350,6 +362,40 @@ func (p *Prog) StructFields(short, typ string) []*types.Var {
 	var out []*types.Var
 	for i := 0; i < st.NumFields(); i++ {
 		out = append(out, st.Field(i))
+	}
+	return out
+}
+
+// paramCallSites: call c hands literal lit to a module helper through a
+// call-only function parameter; returns the calls of that parameter inside
+// the helper.
+func (p *Prog) paramCallSites(c *ssa.Call, lit *ssa.Function) []*ssa.Call {
+	if !p.appliesLiteral(c, lit) {
+		return nil
+	}
+	h := c.Call.StaticCallee()
+	var out []*ssa.Call
+	for i, a := range c.Call.Args {
+		mc, isMC := a.(*ssa.MakeClosure)
+		if !isMC || mc.Fn != ssa.Value(lit) || i >= len(h.Params) {
+			continue
+		}
+		q := h.Params[i]
+		InstrsShallow(h, func(in ssa.Instruction) {
+			call, ok := in.(*ssa.Call)
+			if !ok || call.Call.StaticCallee() != nil || call.Call.IsInvoke() {
+				return
+			}
+			v := call.Call.Value
+			if u, isU := v.(*ssa.UnOp); isU {
+				if st := localSingleStore(u); st != nil {
+					v = st.Val
+				}
+			}
+			if v == ssa.Value(q) {
+				out = append(out, call)
+			}
+		})
 	}
 	return out
 }
